@@ -14,7 +14,7 @@ from .common import V, run_cases
 PROP = "C15"
 NAN = alpha.NAN
 MISS = "miss"  # logical missing marker of this module
-NMAX = {"quick": 3, "thorough": 4}
+NMAX = {"quick": 3, "thorough": 5}
 BUDGET = {"quick": 900, "thorough": 3400}
 
 DATA_CARRIERS = ("nd_f8", "list_nan", "list_none", "list_mixed", "tuple_nan", "tuple_none", "nd_f4", "nd_i4", "nd_i8", "nd_f8_nc",
@@ -32,7 +32,7 @@ META = dict(
          "datetime64, DatetimeIndex and Series naive/UTC-aware, epoch seconds int/float list/ndarray; spans as "
          "list/tuple) plus every (data carrier x time carrier) pair for N<=2; the flags must equal the canonical ones "
          "(an exception is a disagreement). non-trivial = non-canonical carrier",
-    bounds={"quick": {"max_len": 3}, "thorough": {"max_len": 4}},
+    bounds={"quick": {"max_len": 3}, "thorough": {"max_len": 5}},
     not_judged=["epoch seconds inside a pandas Series (statement lists Series under datetimes)",
                 "time-valued data for valid_range_test (the statement's time carriers are about the time input)",
                 "integer carriers when the series has a missing value",
